@@ -47,9 +47,16 @@ def zmax(a, b):
 MODEL_KINDS = ["convection", "burgers", "shallowwater", "euler1d", "nozzle", "euler2d"]
 
 
-def section_law():
+def section_law(const=False):
     """abstract positive section law A(x) (uninterpreted), elementwise on arrays"""
     Af = z3.Function("Asec", z3.RealSort(), z3.RealSort())
+    if const:
+        A0 = z3.Real("A0")
+
+        def claw(x):
+            T.cur().add_fact(A0 > 0)
+            return A.elementwise(lambda v: A0, [x], name="A0")
+        return UserFunc("sectionlaw", claw), (lambda x: A0)
 
     def law(x):
         def one(v):
@@ -81,7 +88,7 @@ def make_model(chk, kind, source=None, params=None):
         m = it.call(get(chk, "flowdyn.modelphy.euler", "euler1d"), [], {"gamma": gam, "source": source})
         return m, {"gamma": gam}
     if kind == "nozzle":
-        law, Af = section_law()
+        law, Af = section_law(const=bool(params.get("Aconst")))
         m = it.call(get(chk, "flowdyn.modelphy.euler", "nozzle"), [law], {"gamma": gam, "source": source})
         return m, {"gamma": gam, "A": Af, "law": law}
     if kind == "euler2d":
@@ -200,26 +207,23 @@ def normals(kind, n):
 # abstract 1-D mesh: the contract of the mesh constructors (proved in C20) as hypothesis
 
 def monotone_array(name, n):
-    """input array with the invariant 'strictly increasing', instantiated pairwise at the
-    index terms at which the array is read (DESIGN §2.3)"""
+    """input array with the invariant 'strictly increasing', instantiated at the index terms at
+    which the array is read: xf(t-1) < xf(t) < xf(t+1) (adjacent instances; comparisons between
+    distant faces follow by chaining through the faces that are read in between)"""
     arr = A.input_array(name, n)
     uf = arr.uf
-    seen = []
+    seen = set()
 
     def inv(i):
         ti = T.tz(i)
-        for tj in seen:
-            if tj.eq(ti):
-                break
-        else:
-            s = T.cur()
-            for tj in seen:
-                inr = z3.And(tj >= 0, tj < T.tz(n))
-                s.add_fact(z3.Implies(z3.And(inr, ti >= 0, ti < T.tz(n)),
-                                      z3.And(z3.Implies(ti < tj, uf(ti) < uf(tj)),
-                                             z3.Implies(tj < ti, uf(tj) < uf(ti)),
-                                             z3.Implies(ti == tj, uf(ti) == uf(tj)))))
-            seen.append(ti)
+        k = ti.get_id()
+        if k in seen:
+            return True
+        seen.add(k)
+        s = T.cur()
+        tn = T.tz(n)
+        s.add_fact(z3.Implies(z3.And(ti >= 1, ti < tn), uf(ti - 1) < uf(ti)))
+        s.add_fact(z3.Implies(z3.And(ti >= 0, ti + 1 < tn), uf(ti) < uf(ti + 1)))
         return True
     arr.inv = inv
     return arr
